@@ -7,7 +7,7 @@
 3. The 167 shipped .ak files and a seeded campaign over the surface grammar: parse -> format -> parse, syntax trees
    compared with positions erased, comments / doc comments compared in order, format twice.
 """
-import json, os, subprocess, time
+import json, os, re, subprocess, time
 import vlib, syntaxgen, rustdbg
 from vlib import log
 
@@ -120,6 +120,26 @@ REGRESSIONS = [
     ("fail-pipe-stage", "fn t() {\n  (fail @\"boom\") |> f\n}\n"),
     ("todo-pipe-stage", "fn t() {\n  x |> (todo @\"wip\")\n}\n"),
 ]
+
+
+def classify_not_idempotent(out1, out2):
+    """the recorded finding fmt:pipeline-comment-not-idempotent, by diagnosis: the two passes differ only in layout (same tokens, same
+    comments) and the first pass left a comment at the end of a closing-bracket line right before a pipeline stage"""
+    if not out1 or not out2:
+        return None
+    strip = lambda t: re.sub(r"\s+", "", re.sub(r"//[^\n]*", "", t))
+    if strip(out1) != strip(out2) or re.findall(r"//[^\n]*", out1) != re.findall(r"//[^\n]*", out2):
+        return None
+    lines = out1.split("\n")
+    for i, l in enumerate(lines):
+        if re.match(r"^\s*[})\]],?\s+// ", l):
+            for l2 in lines[i + 1:i + 6]:
+                if re.match(r"^\s*(//|\|>)", l2):
+                    if l2.lstrip().startswith("|>"):
+                        return "fmt:pipeline-comment-not-idempotent"
+                else:
+                    break
+    return None
 
 
 def corpus_files():
@@ -248,7 +268,8 @@ def c13(tier):
         if v == "ok":
             comments_seen += c["src"].count("// c") + c["src"].count("/// d")
         if v not in ("ok", "unparsed"):
-            rep.violation("generated:%s:%s" % (v, vlib.canon_hash(c["src"])), {"seed": base + c["id"], "src": c["src"], "formatted": o.get("out"), "detail": detail},
+            known = classify_not_idempotent(o.get("out"), o.get("out2")) if v == "not-idempotent" else None
+            rep.violation(known or "generated:%s:%s" % (v, vlib.canon_hash(c["src"])), {"seed": base + c["id"], "src": c["src"], "formatted": o.get("out"), "detail": detail},
                           "%s on generated module (seed %d): %s" % (v, base + c["id"], detail))
     if stats["ok"] < n * 0.5:
         raise vlib.ToolError("only %d of %d generated modules parse: the campaign is too thin" % (stats["ok"], n))
